@@ -230,7 +230,7 @@ def frag(i):
     if i == 8:
         return "n" * 300
     if i == 9:
-        return "b"
+        return ".." + chr(92) + "decoy"      # a parent reference spelt with a backslash (one path component on POSIX)
     if i == 10:
         return "\x00"
     if i == 11:
@@ -241,7 +241,7 @@ def frag(i):
         return "search"
     if i == 14:
         return "link_in"
-    return "n" * 300
+    return "b"
 
 
 def prefix(i):
@@ -375,7 +375,7 @@ def _mk_real(kind, p, use_async, wide):
     else:
         def f(f1: int, sep: bool, f2: int, s: int, reject: bool, ext: bool) -> bool:
             """
-            pre: 0 <= f1 <= 8 and 0 <= f2 <= 8 and 0 <= s <= 2
+            pre: 0 <= f1 <= 9 and 0 <= f2 <= 9 and 0 <= s <= 2
             post: _
             """
             if excluded(nm, locals()):
